@@ -37,6 +37,15 @@ def main():
         finally:
             sh(["git", "-C", "/repo", "worktree", "remove", "--force", wt]); shutil.rmtree(wt, ignore_errors=True)
             shutil.rmtree("/tmp/seedrun_out_" + name, ignore_errors=True)
-        json.dump(results, open(rp, "w"), indent=1, sort_keys=True)
+        # several shards may run side by side: merge this seed's entry into whatever is on disk now
+        try:
+            disk = json.load(open(rp))
+        except Exception:  # pylint: disable=broad-except
+            disk = {}
+        if name in results:
+            disk[name] = results[name]
+        tmp = rp + ".%d.tmp" % os.getpid()
+        json.dump(disk, open(tmp, "w"), indent=1, sort_keys=True)
+        os.replace(tmp, rp)
 
 main()
